@@ -4,10 +4,12 @@ PROP = dict(
     title="Values are rendered as text exactly as documented",
     lean_module="AbraProofs.Properties.C28",
     required_theorems=["C28_str_eq_render", "C28_helper_eq_join", "C28_format_append_spec", "C28_print_spec",
-                       "C28_array_shape", "C28_string_verbatim", "C28_format_chain_spec", "C28_rendering_is_pure", "C28_foreign_leaf_spliced"],
+                       "C28_array_shape", "C28_string_verbatim", "C28_format_chain_spec", "C28_rendering_is_pure", "C28_foreign_leaf_spliced", "C28_int_decimal"],
     harness_bin="c28",
     mismatch_is_violation=True,
-    rule="directed: 14 boundary ints (incl. MIN, MAX, +-2^32), 14 strings (empty, separators ', ' '[ ]' '(1, 2)', newline, tab, quote, backslash, "
+    rule="ints at every change of decimal length: +-(10^k +- d) for k = 0..18, d = 0..3 and +-(10^k - d) for k = 15..18, d up to 300 (quick) / 3000 (thorough), 40 per "
+         "program, each bare, via str into a local, via `..`, inside array, tuple, option and result; random int leaves are drawn from these, from 2^k +- 2, from "
+         "random 64-bit values and from the list below; directed: 14 boundary ints (incl. MIN, MAX, +-2^32), 14 strings (empty, separators ', ' '[ ]' '(1, 2)', newline, tab, quote, backslash, "
          "non-ASCII), bools, nil, each alone and inside array (0/1/3 elements, nested with empty inner arrays), option, result (ok and err side), "
          "2/3/4-tuples; ints and strings also as literal operands of `..` (inlined str); leaves of types outside the built-in nest, rendered by "
          "their own str and spliced into the built-in containers: 12 floats (incl. -0.0, 1e21 and 1.5e-7 spelled as decimals, 17-digit values; also `let s = x.str()` and "
@@ -23,7 +25,8 @@ PROP = dict(
          "with the documented format written in Rust; non-trivial = the value has a container or the text is not a plain decimal",
     nontrivial=lambda req, imp: any(t in req.split() for t in ("A", "T", "SOME", "NONE", "OK", "ERR", "S", "N", "B")),
     trusted_base=COMMON_TB + [
-        "decimal text of ints: Rust i64::to_string is assumed to be Lean's toString on Int (compared on boundary and random ints on every run)",
+        "decimal text of ints: the VM's int-to-text is compared with Lean's Int repr, which C28_int_decimal shows to be the canonical numeral (sign first, decimal digits "
+        "denoting the magnitude, minimal length); the comparison runs on every decimal-length boundary and on random ints on every run",
         "the model strV is a hand transliteration of the prelude's ToString impls, array_to_string_helper (on the suffix arr[idx..]) and format_append; "
         "the step from the Abra source to the model is checked by correspondence, not proved (two-way tie: model vs. real VM)",
         "concat_strings is assumed to be string concatenation (C17)",
